@@ -58,11 +58,11 @@ def cases(tier, seed):
             out.append({"desc": d, "w": nlev * (1 + max(len(l["files"]) if l else 1 for l in lay))})
     # level directories named otherwise than Level_k; a plotfile that was marinated before (a pickle sits beside it)
     m = scope.named_meshes(3)[2]
-    for extra in ({"levelprefix": "Lev_"}, {"marinated": True}):
+    for extra in ({"levelprefix": "Lev_"}, {"marinated": True}, {"decoy": True}):
         d = dict(m)
         d.update(geos[1])
         d.update({"fields": ["temp", "density", "Z"], "layout": [scope.layouts(len(b), 'idrev')[-1] for b in m["levels"]], "seed": seed, "payload": "signed"})
-        d.update({k_: v_ for k_, v_ in extra.items() if k_ == "levelprefix"})
+        d.update({k_: v_ for k_, v_ in extra.items() if k_ in ("levelprefix", "decoy")})
         out.append({"desc": d, "w": 12, "marinated": bool(extra.get("marinated"))})
     # field names that differ only by letter case
     m = scope.named_meshes(3)[1]
